@@ -579,6 +579,10 @@ impl endpoint::Session for ListenerSession {
         }
     }
 
+    fn on_incoming_transfer_frame(&mut self) {
+        self.session.on_incoming_transfer_frame()
+    }
+
     async fn on_incoming_transfer(
         &mut self,
         transfer: Transfer,
